@@ -108,11 +108,11 @@ impl LogicalLineFileFormatter for OptimisingLineFormatter {
             the line-wrapping, because the position of tokens after the multi-line string
             may have changed.
 
-            Technically, these two steps should be alternated until a stable
-            solution is found, but given the current formatting rules, it seems
-            like a second round of multi-line string indenting is not required;
-            the line wrapping caused by indentation of a multi-line string should
-            not cause any multi-line strings to change in indentation.
+            These two steps are alternated until no multi-line string changes
+            any more: re-wrapping a line can move the opening quotes of a string
+            (of a second string in the same statement, or of the only one when the
+            width of its last line changed), which then needs indenting again.
+            The number of rounds is bounded in case the two steps never agree.
         */
         if !self.olf_settings.format_multiline_strings {
             remove_spaces_at_line_starts(olf.formatted_tokens);
@@ -122,28 +122,34 @@ impl LogicalLineFileFormatter for OptimisingLineFormatter {
         let string_formatter = multiline_strings::StringFormatter {
             recon_settings: &self.recon_settings,
         };
-        let mut lines_to_reflow: Vec<(usize, &LogicalLine)> = vec![];
-        for mut line in input.iter().enumerate() {
-            if string_formatter.format_multiline_strings(line.1, olf.formatted_tokens) {
-                // Need to reflow the line now that the strings have been changed.
-                // All line-wrapping starts from the top-level parent line, though.
-                while let Some(parent) = line.1.get_parent() {
-                    line = (parent.line_index, &input[parent.line_index]);
+        const MAX_REFLOW_ROUNDS: usize = 3;
+        for _ in 0..MAX_REFLOW_ROUNDS {
+            let mut lines_to_reflow: Vec<(usize, &LogicalLine)> = vec![];
+            for mut line in input.iter().enumerate() {
+                if string_formatter.format_multiline_strings(line.1, olf.formatted_tokens) {
+                    // Need to reflow the line now that the strings have been changed.
+                    // All line-wrapping starts from the top-level parent line, though.
+                    while let Some(parent) = line.1.get_parent() {
+                        line = (parent.line_index, &input[parent.line_index]);
+                    }
+
+                    lines_to_reflow.push(line);
+                };
+            }
+            if lines_to_reflow.is_empty() {
+                break;
+            }
+
+            // Avoid reformatting the same parent line many times.
+            lines_to_reflow.sort_by_key(|line| line.0);
+            lines_to_reflow.dedup_by_key(|line| line.0);
+
+            for line in lines_to_reflow {
+                #[cfg(feature = "verif")]
+                crate::verif::emit(crate::verif::Event::Reflow { line_index: line.0 });
+                if let Some(solution) = olf.format_line(line) {
+                    olf.reconstruct_solution(&solution, line.1);
                 }
-
-                lines_to_reflow.push(line);
-            };
-        }
-
-        // Avoid reformatting the same parent line many times.
-        lines_to_reflow.sort_by_key(|line| line.0);
-        lines_to_reflow.dedup_by_key(|line| line.0);
-
-        for line in lines_to_reflow {
-            #[cfg(feature = "verif")]
-            crate::verif::emit(crate::verif::Event::Reflow { line_index: line.0 });
-            if let Some(solution) = olf.format_line(line) {
-                olf.reconstruct_solution(&solution, line.1);
             }
         }
 
